@@ -6,7 +6,7 @@ import os
 import numpy as np
 
 from .. import attach, gen, pipeline, poollog
-from ..runner import quiet
+from ..runner import quiet, guarded
 
 PROP = 'C11'
 OPT_KEYS = ('center_extrema', 'burst_method', 'burst_kwargs', 'threshold_kwargs', 'find_extrema_kwargs')
@@ -204,16 +204,16 @@ def run(sh):
         perms = [p for i, p in enumerate(list(itertools.permutations(range(4))) + list(itertools.permutations(range(5))))
                  if i % sh.nshards == sh.shard]
     for p in perms:
-        run_one(sh, make_case(rng, len(p), order=list(p), n_jobs=len(p)), 'schedule')
+        guarded(sh, run_one, sh, make_case(rng, len(p), order=list(p), n_jobs=len(p)), 'schedule')
     K = 4 if sh.tier == 'quick' else 60
     for it in range(K):
         n = int(rng.integers(2, 9 if sh.tier == 'quick' else 13))
-        run_one(sh, make_case(rng, n, api='func' if rng.random() < 0.75 else 'obj'))
+        guarded(sh, run_one, sh, make_case(rng, n, api='func' if rng.random() < 0.75 else 'obj'))
     if sh.tier == 'thorough':
         # slow first row, fast rest, worker reuse
         for it in range(3):
             c = make_case(rng, 12, order=list(range(1, 12)) + [0], n_jobs=int(rng.choice([2, 3, 4])))
-            run_one(sh, c, 'slow_first')
+            guarded(sh, run_one, sh, c, 'slow_first')
     orders = sh.extra.pop('orders', set())
     sh.extra['distinct_completion_orders'] = len(orders)
     sh.extra['completion_orders_sample'] = [list(o) for o in sorted(orders)[:6]]
